@@ -163,6 +163,26 @@ Proof.
   intros H. rewrite <- (firstn_skipn j l) in H. rewrite nozero_app in H. apply andb_prop in H. apply H.
 Qed.
 
+(* running out of gap costs input: every byte of gap is used up by a consumed byte *)
+Lemma dec_loop_mb_consumed v : forall inp code pos proc out cons,
+  lr (dec_loop v false inp code pos proc out cons) = DErr MissingBuffer ->
+  proc <= lcons (dec_loop v false inp code pos proc out cons) - cons + 1.
+Proof.
+  induction inp as [|b rest IH]; intros code pos proc out cons H; cbn [dec_loop] in *.
+  - destruct (pos <? len_data v code); discriminate.
+  - destruct (Nat.ltb_spec pos (len_data v code)) as [Hlt|Hge].
+    + destruct (bz b); [discriminate|]. destruct (Nat.eqb_spec proc 0); [discriminate|].
+      specialize (IH code (S pos) proc (out ++ [b]) (S cons) H).
+      pose proof (dec_loop_gap v false rest code (S pos) proc (out ++ [b]) (S cons)) as (a & _ & G1 & _). lia.
+    + pose proof (len_zero_le2 v code b) as Hz.
+      set (k := len_data v code + len_zero v code b - pos) in *.
+      destruct (Nat.ltb_spec proc k) as [Hk|Hk]; [cbn [lcons]; lia|].
+      destruct (bz b); [discriminate|].
+      specialize (IH (bn b) 0 (proc - k + 1) (out ++ zeros k) (S cons) H).
+      pose proof (dec_loop_gap v false rest (bn b) 0 (proc - k + 1) (out ++ zeros k) (S cons)) as (a & _ & G1 & _).
+      unfold k in *. lia.
+Qed.
+
 (* ---------- one decoder call ---------- *)
 Definition gapof (st : dstate) : nat := dcurr st - (dpos st + dlen st).
 
@@ -208,7 +228,8 @@ Definition live_result (v : variant) (st : dstate) (buf : list byte) (r : dres) 
      dcurr st' = dcurr st + length pre + 1) \/
   (r = DErr MissingBuffer /\ slive v st' buf' /\
    exists j, dcurr st' = dcurr st + j /\ nozero (firstn j unread) = true /\
-     forall pre tl, unread = pre ++ 0%N :: tl -> nozero pre = true -> gapof st < length pre + 17).
+     (forall pre tl, unread = pre ++ 0%N :: tl -> nozero pre = true -> gapof st < length pre + 17) /\
+     gapof st <= j + 17).
 
 Lemma slive_after_mb v (buf buf' : list byte) curr curr' j code pos done mlen inp :
   curr' = curr + j -> skipn curr' buf' = skipn curr' buf -> skipn curr buf = inp ->
@@ -279,12 +300,15 @@ Proof.
             + replace (lcons r) with (S (lcons r - 1)) by lia. cbn [skipn]. exact Hw'.
           - exists (lcons r). cbn [dcurr]. split; [exact Hcur|]. rewrite Hun. split.
             + replace (lcons r) with (S (lcons r - 1)) by lia. cbn [firstn]. rewrite nozero_cons, Hc0, Hz. reflexivity.
-            + intros pre tl Epre Hzp. destruct pre as [|c' pre']; [cbn [app] in Epre; inversion Epre; subst c; discriminate|].
-              cbn [app] in Epre. inversion Epre; subst c' rest0.
-              rewrite nozero_cons in Hzp. apply andb_prop in Hzp. destruct Hzp as [_ Hzp].
-              destruct (Nat.ltb_spec (gapof st) (length (c :: pre') + 17)); [assumption|]. exfalso.
-              apply (dec_loop_enough v pre' tl (bn c) 0 proc [] 1 Hzp); [|exact Elr].
-              unfold gapof, proc in *. cbn [length] in *. lia. }
+            + split.
+              * intros pre tl Epre Hzp. destruct pre as [|c' pre']; [cbn [app] in Epre; inversion Epre; subst c; discriminate|].
+                cbn [app] in Epre. inversion Epre; subst c' rest0.
+                rewrite nozero_cons in Hzp. apply andb_prop in Hzp. destruct Hzp as [_ Hzp].
+                destruct (Nat.ltb_spec (gapof st) (length (c :: pre') + 17)); [assumption|]. exfalso.
+                apply (dec_loop_enough v pre' tl (bn c) 0 proc [] 1 Hzp); [|exact Elr].
+                unfold gapof, proc in *. cbn [length] in *. lia.
+              * pose proof (dec_loop_mb_consumed v rest0 (bn c) 0 proc [] 1 Elr) as Hmc. fold r in Hmc.
+                unfold gapof, proc in *. lia. }
         unfold live_result in Hres. rewrite Hun in Hres. destruct (inl v); exact Hres.
   - (* resumed inside a message *)
     destruct (dmsg st) as [c|] eqn:Em; [destruct Hm as (_ & Hz & _); contradiction|].
@@ -328,10 +352,11 @@ Proof.
           split.
           - apply (slive_after_mb v buf _ (dcurr st) _ (lcons r) _ _ _ _ inp); try assumption; try reflexivity.
             apply splice_skipn; unfold gapof in *; lia.
-          - exists (lcons r). cbn [dcurr]. split; [exact Hcur|]. fold inp. split; [exact Hz|].
-            intros pre tl Epre Hzp.
-            destruct (Nat.ltb_spec (gapof st) (length pre + 17)); [assumption|]. exfalso.
-            unfold r in Elr. rewrite Epre in Elr.
-            apply (dec_loop_enough v pre tl (dcode st) (dpos8 st) (gapof st) [] 0 Hzp); [lia|exact Elr]. }
+          - exists (lcons r). cbn [dcurr]. split; [exact Hcur|]. fold inp. split; [exact Hz|]. split.
+            + intros pre tl Epre Hzp.
+              destruct (Nat.ltb_spec (gapof st) (length pre + 17)); [assumption|]. exfalso.
+              unfold r in Elr. rewrite Epre in Elr.
+              apply (dec_loop_enough v pre tl (dcode st) (dpos8 st) (gapof st) [] 0 Hzp); [lia|exact Elr].
+            + pose proof (dec_loop_mb_consumed v inp (dcode st) (dpos8 st) (gapof st) [] 0 Elr) as Hmc. fold r in Hmc. lia. }
         unfold live_result in Hres. fold inp in Hres. destruct (inl v); exact Hres.
 Qed.
